@@ -109,12 +109,16 @@ theorem tagWriteX_eq (c : Cfg) (hl : c.limits.have_ ≤ c.limits.match_) (a : At
 
 section
 set_option linter.unusedSectionVars false
-variable (c : Cfg) (hl : c.limits.have_ ≤ c.limits.match_)
-include hl
+variable (c : Cfg) (hl : c.limits.have_ ≤ c.limits.match_) (hf : c.forwards)
+include hl hf
 
 mutual
 theorem expandDef_eq (ns : NS) : (d : Def) → wfDef d = true →
     expandDef c ns d = specDef c.infl ns.style ns.pfx.denote d
+  | .wrap w d, h => by
+    simp only [wfDef] at h
+    simp only [expandDef, specDef, hf w ns]
+    exact expandDef_eq ns d h
   | .struct a fs, h => by
     simp only [wfDef] at h
     simp only [expandDef, specDef]
@@ -190,12 +194,18 @@ theorem tagSgX_eq (c : Cfg) (hl : c.limits.have_ ≤ c.limits.match_) (a : Attrs
 
 section
 set_option linter.unusedSectionVars false
-variable (c : Cfg) (hl : c.limits.have_ ≤ c.limits.match_)
-include hl
+variable (c : Cfg) (hl : c.limits.have_ ≤ c.limits.match_) (hf : c.forwards)
+include hl hf
 
 mutual
 theorem sgDef_eq (ns : NS) : (d : Def) → wfDef d = true →
     sgDef c ns d = specSgDef c.infl ns.style ns.pfx.denote (eraseDef d)
+  | .wrap w d, h => by
+    simp only [wfDef] at h
+    simp only [sgDef, eraseDef, hf w ns]
+    cases hw : w.forwardsSampleGroup with
+    | false => simp [specSgDef, specSgFields]
+    | true => simpa [specSgDef] using sgDef_eq ns d h
   | .struct a fs, h => by
     simp only [wfDef] at h
     simp only [sgDef, eraseDef, specSgDef]
@@ -264,6 +274,10 @@ end
 mutual
 theorem specSgDef_chain_irrel (infl : Infl) (st : Style) (ch ch' : Str) : (d : Def) → hasSgDef d = false →
     specSgDef infl st ch d = specSgDef infl st ch' d
+  | .wrap w d, h => by
+    simp only [hasSgDef] at h
+    simp only [specSgDef]
+    exact specSgDef_chain_irrel infl st ch ch' d h
   | .struct a fs, h => by
     simp only [hasSgDef] at h
     simp only [specSgDef]
@@ -304,9 +318,62 @@ theorem specSgField_chain_irrel (infl : Infl) (st : Style) (ch ch' : Str) (a : A
   | .flattenEntry items sg, _ => rfl
 end
 
+/- a definition that is `silentDef` reports no pair under the documented function -/
+mutual
+theorem specSgDef_silent (infl : Infl) (st : Style) (ch : Str) : (d : Def) → silentDef d = true →
+    specSgDef infl st ch d = []
+  | .wrap w d, h => by
+    simp only [silentDef] at h
+    simp only [specSgDef]
+    exact specSgDef_silent infl st ch d h
+  | .struct a fs, h => by
+    simp only [silentDef] at h
+    simp only [specSgDef]
+    exact specSgFields_silent infl _ ch a fs h
+  | .enum a tag vi vn tuple fs, h => by
+    simp only [silentDef, Bool.and_eq_true, Bool.not_eq_true'] at h
+    simp only [specSgDef, specSgFields_silent infl _ ch a fs h.2, List.append_nil]
+    cases tag with
+    | none => rfl
+    | some t => simp [h.1]
+theorem specSgFields_silent (infl : Infl) (st : Style) (ch : Str) (a : Attrs) :
+    (fs : Fields) → silentFields fs = true → specSgFields infl st ch a fs = []
+  | .nil, _ => rfl
+  | .cons f fs, h => by
+    simp only [silentFields, Bool.and_eq_true] at h
+    simp only [specSgFields, specSgField_silent infl st ch a f h.1,
+      specSgFields_silent infl st ch a fs h.2, List.append_nil]
+theorem specSgField_silent (infl : Infl) (st : Style) (ch : Str) (a : Attrs) :
+    (f : Field) → silentField f = true → specSgField infl st ch a f = []
+  | .plain ident ov unit sg v, h => by
+    simp only [silentField, Bool.not_eq_true'] at h
+    simp [specSgField, h]
+  | .ignore, _ => rfl
+  | .timestamp, _ => rfl
+  | .flatten p present child, h => by
+    simp only [silentField, Bool.or_eq_true, Bool.not_eq_true'] at h
+    simp only [specSgField]
+    cases present with
+    | false => rfl
+    | true =>
+      have hc : silentDef child = true := by simpa using h
+      simpa using specSgDef_silent infl st _ child hc
+  | .flattenEntry items sg, h => by
+    simp only [silentField, List.isEmpty_iff] at h
+    simp [specSgField, h]
+end
+
 mutual
 theorem specSgDef_erase (infl : Infl) (st : Style) (ch : Str) : (d : Def) → sgPrefixFree d = true →
     specSgDef infl st ch (eraseDef d) = specSgDef infl st ch d
+  | .wrap w d, h => by
+    simp only [sgPrefixFree, Bool.and_eq_true, Bool.or_eq_true] at h
+    simp only [eraseDef]
+    cases hw : w.forwardsSampleGroup with
+    | true => simpa [specSgDef] using specSgDef_erase infl st ch d h.2
+    | false =>
+      have hs : silentDef d = true := by simpa [hw] using h.1
+      simp [specSgDef, specSgFields, specSgDef_silent infl st ch d hs]
   | .struct a fs, h => by
     simp only [sgPrefixFree] at h
     simp only [eraseDef, specSgDef]
@@ -353,10 +420,10 @@ and every prefix chain (any tree of `Concatenated`s, in particular longer than t
 limit), what the generated `InflectableEntry::<NS>::write` emits — names resolved through the four
 pre-inflected strings, `NameStyle`'s associated types and `const_str_value` — is exactly what the
 documented naming function prescribes: same items, same order, same names, values, units, kinds. -/
-theorem c07_expansion_eq_spec (c : Cfg) (hl : c.limits.have_ ≤ c.limits.match_) (ns : NS) (d : Def)
-    (hwf : wfDef d = true) :
+theorem c07_expansion_eq_spec (c : Cfg) (hl : c.limits.have_ ≤ c.limits.match_) (hf : c.forwards)
+    (ns : NS) (d : Def) (hwf : wfDef d = true) :
     expandDef c ns d = specDef c.infl ns.style ns.pfx.denote d :=
-  expandDef_eq c hl ns d hwf
+  expandDef_eq c hl hf ns d hwf
 
 /-- The constants extracted from `concat.rs` on this run satisfy the side condition. -/
 theorem c07_limits_consistent : Generated.Naming.haveValLimit ≤ Generated.Naming.matchLimit := by
@@ -364,21 +431,23 @@ theorem c07_limits_consistent : Generated.Naming.haveValLimit ≤ Generated.Nami
 
 /-- the configuration of the real code: the limits of `concat.rs`, any inflector -/
 def realCfg (infl : Infl) : Cfg :=
-  ⟨infl, ⟨Generated.Naming.haveValLimit, Generated.Naming.matchLimit⟩⟩
+  { infl := infl, limits := ⟨Generated.Naming.haveValLimit, Generated.Naming.matchLimit⟩ }
+
+theorem realCfg_forwards (infl : Infl) : (realCfg infl).forwards := fun _ _ => rfl
 
 /-- **C07 at the root**: a `RootEntry` (written with `Identity<EmptyConstStr>`) of any well-formed
 definition emits the documented items, with the limits `concat.rs` has now. -/
 theorem c07_root_entry_eq_spec (infl : Infl) (d : Def) (hwf : wfDef d = true) :
     expandDef (realCfg infl) NS.root d = specDef infl .preserve [] d :=
-  expandDef_eq (realCfg infl) c07_limits_consistent NS.root d hwf
+  expandDef_eq (realCfg infl) c07_limits_consistent (realCfg_forwards infl) NS.root d hwf
 
 /-- **C07 (sample groups), what the code does, full strength**: the generated `sample_group()` of
 every well-formed tree reports the documented pairs *of the tree with every flatten prefix erased*
 (`collect_field_sample_group` never appends the flatten prefix). -/
 theorem c07_sample_group_erases_flatten_prefix (c : Cfg) (hl : c.limits.have_ ≤ c.limits.match_)
-    (ns : NS) (d : Def) (hwf : wfDef d = true) :
+    (hf : c.forwards) (ns : NS) (d : Def) (hwf : wfDef d = true) :
     sgDef c ns d = specSgDef c.infl ns.style ns.pfx.denote (eraseDef d) :=
-  sgDef_eq c hl ns d hwf
+  sgDef_eq c hl hf ns d hwf
 
 /- The full statement `sgDef c ns d = specSgDef c.infl ns.style ns.pfx.denote d` for every
 well-formed `d` is FALSE for the code as it is (known finding
@@ -389,9 +458,19 @@ whenever no prefixed flatten has a child that reports a sample-group pair of its
 case of a `#[metrics(flatten, prefix/exact_prefix)]` over a sample-group field/tag, where the code
 omits the flatten prefix from the pair's name. -/
 theorem c07_sample_group_eq_spec_partial (c : Cfg) (hl : c.limits.have_ ≤ c.limits.match_)
-    (ns : NS) (d : Def) (hwf : wfDef d = true) (hfree : sgPrefixFree d = true) :
+    (hf : c.forwards) (ns : NS) (d : Def) (hwf : wfDef d = true) (hfree : sgPrefixFree d = true) :
     sgDef c ns d = specSgDef c.infl ns.style ns.pfx.denote d := by
-  rw [sgDef_eq c hl ns d hwf, specSgDef_erase c.infl ns.style ns.pfx.denote d hfree]
+  rw [sgDef_eq c hl hf ns d hwf, specSgDef_erase c.infl ns.style ns.pfx.denote d hfree]
+
+/-- **Forwarding impls are covered and forward.** The list of `impl InflectableEntry<NS> for
+<container>` that T-gen finds in metrique-core now is exactly the list of `Wrapper`s the model (and
+the generated crate) goes through; each bounds `T: InflectableEntry<NS>` and calls `T`'s `write`
+(so `Cfg.forwards` is what the code says), and `sample_group` is overridden exactly where the
+model forwards it. A new or altered forwarding impl re-opens this obligation. -/
+theorem c07_forwarding_impls_covered :
+    Generated.Naming.forwardingImpls
+      = Wrapper.all.map fun w => (w.rustType, true, w.forwardsSampleGroup) := by
+  decide
 
 /-! ## Exactly one item per present, non-ignored field -/
 
@@ -411,6 +490,9 @@ theorem fieldObs_isSome (infl : Infl) (u : Option Str) (v : FVal) :
 mutual
 theorem specDef_length (infl : Infl) (st : Style) (ch : Str) : (d : Def) →
     (specDef infl st ch d).length = countDef d
+  | .wrap w d => by
+    simp only [specDef, countDef]
+    exact specDef_length infl st ch d
   | .struct a fs => by
     simp only [specDef, countDef]
     exact specFields_length infl _ ch a fs
@@ -444,9 +526,9 @@ end
 /-- **C07 (count).** The emitted entry has exactly one item per tag and per present, non-ignored
 plain field, transitively through present flattened children (plus the items of `flatten_entry`
 fields verbatim); ignored fields, timestamps and absent `Option`s contribute nothing. -/
-theorem c07_one_item_per_field (c : Cfg) (hl : c.limits.have_ ≤ c.limits.match_) (ns : NS) (d : Def)
-    (hwf : wfDef d = true) : (expandDef c ns d).length = countDef d := by
-  rw [c07_expansion_eq_spec c hl ns d hwf, specDef_length]
+theorem c07_one_item_per_field (c : Cfg) (hl : c.limits.have_ ≤ c.limits.match_) (hf : c.forwards)
+    (ns : NS) (d : Def) (hwf : wfDef d = true) : (expandDef c ns d).length = countDef d := by
+  rw [c07_expansion_eq_spec c hl hf ns d hwf, specDef_length]
 
 /-! ## Non-vacuity and the witness of the known finding -/
 
@@ -458,7 +540,7 @@ def toyInfl : Infl := fun st s =>
   | .kebab => 'k' :: s
   | .preserve => s
 
-def toyCfg : Cfg := ⟨toyInfl, ⟨4, 4⟩⟩
+def toyCfg : Cfg := { infl := toyInfl, limits := ⟨4, 4⟩ }
 
 /-- grandchild: `rename_all = snake_case`, a `name` override, a sample-group string -/
 def exGrand : Def :=
@@ -500,6 +582,31 @@ example : sgDef toyCfg NS.root exRoot = [ (['P', 'r', '_', 'o', 'p'], ['P', 'V',
         = [ (['P', 'r', '_', 'o', 'p'], ['P', 'V', 'a']), (['E', ':', 'P', 'q', '_', 'H', '!'], ['v']) ] := by
   decide
 
+/-- a forwarding impl that loses the `NS` for `Arc` (what `T: InflectableEntry` — default
+`Identity`, empty prefix — instead of `T: InflectableEntry<NS>` would mean) -/
+def arcResetCfg : Cfg :=
+  { toyCfg with wrapNs := fun w ns => match w with | .arc => NS.root | _ => ns }
+
+/-- the grandchild behind an `Arc`, below a Pascal parent with a flatten prefix -/
+def exArc : Def :=
+  .struct ⟨.pascal, none⟩ (.cons (.flatten (some (.infl ['q', '_'])) true (.wrap .arc exGrand)) .nil)
+
+/-- **Witness that `Cfg.forwards` is needed**: with forwarding impls that are the identity the
+wrapped child is named like the bare child (`Pq_sg`, `Pq_H!`); a wrapper that resets the style and
+the prefix chain emits `sg`, `H!` instead — C07 is violated for items and sample group. -/
+example : expandDef toyCfg NS.root exArc = specDef toyInfl .preserve [] exArc
+    ∧ (expandDef toyCfg NS.root exArc).map (·.1) = [['P', 'q', '_', 's', 'g'], ['P', 'q', '_', 'H', '!']]
+    ∧ (expandDef arcResetCfg NS.root exArc).map (·.1) = [['s', 'g'], ['H', '!']]
+    ∧ expandDef arcResetCfg NS.root exArc ≠ specDef toyInfl .preserve [] exArc
+    ∧ wfDef exArc = true := by decide
+
+/-- the wrappers that do not forward `sample_group` drop the child's pairs (the code's behaviour;
+excluded from the partial theorem by `sgPrefixFree`) -/
+example : sgDef toyCfg NS.root (.wrap .forceFlag exGrand) = []
+    ∧ specSgDef toyInfl .preserve [] (.wrap .forceFlag exGrand) = [(['H', '!'], ['v'])]
+    ∧ sgPrefixFree (.wrap .forceFlag exGrand) = false
+    ∧ sgDef toyCfg NS.root (.wrap .arc exGrand) = [(['H', '!'], ['v'])] := by decide
+
 /-- a concatenation beyond the limit: static value unavailable, heap path taken, same string -/
 example : (CStr.cat (.cat (.leaf []) (.leaf ['a', 'b', 'c'])) (.leaf ['d', 'e'])).haveVal 4 = false
     ∧ constStrValue ⟨4, 4⟩ (CStr.cat (.cat (.leaf []) (.leaf ['a', 'b', 'c'])) (.leaf ['d', 'e']))
@@ -511,6 +618,7 @@ end Naming
 #print axioms Naming.c07_expansion_eq_spec
 #print axioms Naming.c07_limits_consistent
 #print axioms Naming.c07_root_entry_eq_spec
+#print axioms Naming.c07_forwarding_impls_covered
 #print axioms Naming.c07_one_item_per_field
 #print axioms Naming.c07_sample_group_erases_flatten_prefix
 #print axioms Naming.c07_sample_group_eq_spec_partial
